@@ -6,6 +6,7 @@
 From Coq Require Import List.
 From PV Require Import Base.Common Base.IR Gen.TypeTables Gen.ResolverTables Model.Resolve Proofs.ResolveProofs.
 Import ListNotations.
+From PV Require Model.TypeLegal Model.Autoderef Proofs.AutoderefProofs.
 
 (* Whatever the gate accepts is well typed: at every binary node both operands
    have the node's type (the offset of a pointer advance is a usize), of the
@@ -140,3 +141,55 @@ Print Assumptions C07_check_call_sound.
 Print Assumptions C07_check_call_arity.
 Print Assumptions C07_check_call_type_mismatch.
 Print Assumptions C07_pinned_refuted.
+
+(* ---- the coercion lattice of value_type.rs (Model/Autoderef.v, one arm per Rust arm) -------------------
+   `equals` - the "same type" of coercions - is an equivalence whose only non-trivial class is
+   {char8, u8}; a coercion is never between equal types, is never reflexive, and is always something
+   the autoderef predicate promises too; concretization and `is_like` are reflexive. *)
+Theorem C07_equals_is_an_equivalence :
+  (forall a, Autoderef.equals a a = true) /\
+  (forall a b, Autoderef.equals a b = Autoderef.equals b a) /\
+  (forall a b c, Autoderef.equals a b = true -> Autoderef.equals b c = true -> Autoderef.equals a c = true).
+Proof. exact (conj AutoderefProofs.equals_refl (conj AutoderefProofs.equals_sym AutoderefProofs.equals_trans)). Qed.
+
+Theorem C07_coercion_is_not_identity : forall a b,
+  Autoderef.can_coerce_into a b = true -> Autoderef.equals a b = false.
+Proof. exact AutoderefProofs.coerce_not_equals. Qed.
+
+Theorem C07_coercion_is_promised_by_autoderef : forall a b,
+  Autoderef.can_coerce_into a b = true -> Autoderef.can_autoderef_into a b = true.
+Proof. exact AutoderefProofs.coerce_autoderef. Qed.
+
+Theorem C07_address_coercion_is_promised_by_autoderef : forall a b,
+  Autoderef.can_coerce_address_into a b = true -> Autoderef.can_autoderef_into (TypeLegal.VPointer a) b = true.
+Proof. exact AutoderefProofs.coerce_address_autoderef. Qed.
+
+Theorem C07_concretization_reflexive : forall a, Autoderef.can_be_concretization_of a a = true.
+Proof. exact AutoderefProofs.can_be_concretization_of_refl. Qed.
+
+(* a reference of exactly the expected type, written without `&`, keeps that type: no step and no
+   coercion changes it (or it is the listed D11 panic) *)
+Theorem C07_reference_of_expected_type_keeps_it : forall mt known steps y,
+  Autoderef.fits mt known steps = true -> AutoderefProofs.steps_within steps -> AutoderefProofs.types_within mt known ->
+  Autoderef.type_of_reference mt known steps 0 = Some y ->
+  (forall e, y <> TypeLegal.VView (TypeLegal.VEndless e)) ->
+  match Autoderef.autoderef mt known y steps 0 with
+  | Autoderef.ADOk _ ta dt c => ta = false /\ c = None /\ dt = y
+  | Autoderef.ADError _ => False
+  | Autoderef.ADPanic s => s = 3%N
+  end.
+Proof. exact AutoderefProofs.promise_eq_ad0. Qed.
+
+(* the promise `can_autoderef_into x y` is NOT kept in general (what the typer then builds has another
+   type; later stages reject or repair it): the excess `&` of `&&&a` are dropped where `&i32` is expected *)
+Theorem C07_excess_addresses_refuted :
+  exists r, Autoderef.analyze_deref AutoderefProofs.no_members (TypeLegal.VPrim TypeLegal.KInt32) [] 3
+              (Some (TypeLegal.VPointer (TypeLegal.VPrim TypeLegal.KInt32))) = Some r /\
+            r = Autoderef.ADOk [] true (TypeLegal.VPointer (TypeLegal.VPrim TypeLegal.KInt32)) None.
+Proof. eexists. split; [vm_compute; reflexivity | reflexivity]. Qed.
+
+Print Assumptions C07_equals_is_an_equivalence.
+Print Assumptions C07_coercion_is_not_identity.
+Print Assumptions C07_coercion_is_promised_by_autoderef.
+Print Assumptions C07_reference_of_expected_type_keeps_it.
+Print Assumptions C07_excess_addresses_refuted.
